@@ -8,7 +8,7 @@ import SimVerif.Lemmas.HandlersUdpSys
 
 namespace SimVerif
 
-structure TInv (s : HS) : Prop where
+structure h4_TInv (s : HdS) : Prop where
   wf   : TWf s.n
   perm : (allTcpIds s.n ++ s.parked ++ s.ids).Perm s.started
 
@@ -76,8 +76,8 @@ theorem wmid_props (tp : TParams) (name : String) (mid : List WMid) (n : NetSt) 
     runs, and `tcpWriteFinish` parks it again or posts it once -/
 theorem tcons_runWrite (tp : TParams) (n : NetSt) (name : String) (h? : Option Nat) (mid : List WMid)
     (r : Except Ec Nat) :
-    TCons n ((TLbl.runWrite name h? mid r).eff tp n).1 ((TLbl.runWrite name h? mid r).eff tp n).2 [] := by
-  simp only [TLbl.eff]
+    TCons n ((h4_HLbl.runWrite name h? mid r).eff tp n).1 ((h4_HLbl.runWrite name h? mid r).eff tp n).2 [] := by
+  simp only [h4_HLbl.eff]
   cases ht : n.tcp? name with
   | none => exact TCons.refl n
   | some t =>
@@ -116,58 +116,58 @@ theorem tcons_runWrite (tp : TParams) (n : NetSt) (name : String) (h? : Option N
 theorem parkedOf_eq (l : List NEff) : parkedOf l = parkedOf l := rfl
 
 /-- every label, under its precondition, conserves handler ids -/
-theorem tcp_label_conserve (tp : TParams) (s : HS) (l : TLbl) (hok : TS.ok s l) :
+theorem tcp_label_conserve (tp : TParams) (s : HdS) (l : h4_HLbl) (hok : HTS.ok s l) :
     ∃ new, TCons s.n (l.eff tp s.n).1 (l.eff tp s.n).2 new
-      ∧ (new ++ (TS.step tp s l).parked).Perm (l.newId?.toList ++ s.parked) := by
+      ∧ (new ++ (HTS.step tp s l).parked).Perm (l.newId?.toList ++ s.parked) := by
   cases l with
   | newSock name node isAcc =>
-    refine ⟨[], ?_, by simp [TS.step, TLbl.newId?]⟩
+    refine ⟨[], ?_, by simp [HTS.step, h4_HLbl.newId?]⟩
     refine TCons.setTcp_absent hok ?_ (Or.inl rfl)
     cases isAcc <;> simp [TcpSock.slotIds, TcpSock.acceptOp]
   | connect now name target h =>
     obtain ⟨s0, hs0, hpre⟩ := hok
     obtain ⟨new, hc, hp⟩ := tcons_tcpConnect s.n now name target h s0 hs0 hpre
     refine ⟨new, hc, ?_⟩
-    simp only [TS.step, TLbl.newId?, Option.toList_some, TLbl.eff]
+    simp only [HTS.step, h4_HLbl.newId?, Option.toList_some, h4_HLbl.eff]
     perm_omega hp
-  | read name op => exact ⟨[op.h], tcons_tcpAsyncRead s.n name op hok, by simp [TS.step, TLbl.newId?]⟩
-  | waitRead name h => exact ⟨[h], tcons_tcpWaitRead s.n name h hok, by simp [TS.step, TLbl.newId?]⟩
-  | write name op => exact ⟨[op.h], tcons_tcpAsyncWrite s.n name op hok, by simp [TS.step, TLbl.newId?]⟩
-  | runWrite name h? mid r => exact ⟨[], tcons_runWrite tp s.n name h? mid r, by simp [TS.step, TLbl.newId?]⟩
-  | readNb name caps => exact ⟨[], tcons_tcpReadNb s.n name caps, by simp [TS.step, TLbl.newId?]⟩
-  | cancel name => exact ⟨[], tcons_tcpCancel s.n name, by simp [TS.step, TLbl.newId?]⟩
-  | close now name => exact ⟨[], tcons_tcpClose s.n now name, by simp [TS.step, TLbl.newId?]⟩
-  | reopen now name v4 => exact ⟨[], tcons_tcpOpen s.n now name v4, by simp [TS.step, TLbl.newId?]⟩
-  | bind name ep => exact ⟨[], tcons_tcpBind s.n name ep, by simp [TS.step, TLbl.newId?]⟩
+  | read name op => exact ⟨[op.h], tcons_tcpAsyncRead s.n name op hok, by simp [HTS.step, h4_HLbl.newId?]⟩
+  | waitRead name h => exact ⟨[h], tcons_tcpWaitRead s.n name h hok, by simp [HTS.step, h4_HLbl.newId?]⟩
+  | write name op => exact ⟨[op.h], tcons_tcpAsyncWrite s.n name op hok, by simp [HTS.step, h4_HLbl.newId?]⟩
+  | runWrite name h? mid r => exact ⟨[], tcons_runWrite tp s.n name h? mid r, by simp [HTS.step, h4_HLbl.newId?]⟩
+  | readNb name caps => exact ⟨[], tcons_tcpReadNb s.n name caps, by simp [HTS.step, h4_HLbl.newId?]⟩
+  | cancel name => exact ⟨[], tcons_tcpCancel s.n name, by simp [HTS.step, h4_HLbl.newId?]⟩
+  | close now name => exact ⟨[], tcons_tcpClose s.n now name, by simp [HTS.step, h4_HLbl.newId?]⟩
+  | reopen now name v4 => exact ⟨[], tcons_tcpOpen s.n now name v4, by simp [HTS.step, h4_HLbl.newId?]⟩
+  | bind name ep => exact ⟨[], tcons_tcpBind s.n name ep, by simp [HTS.step, h4_HLbl.newId?]⟩
   | accept now name op =>
     obtain ⟨⟨s0, hs0, hacc⟩, hfresh, hv⟩ := hok
     refine ⟨[op.h], tcons_accAsyncAccept s.n now name op s0 hs0 hacc hfresh hv, ?_⟩
-    cases op <;> simp [TS.step, TLbl.newId?, AcceptOp.h]
-  | listen name qs => exact ⟨[], tcons_accListen s.n name qs, by simp [TS.step, TLbl.newId?]⟩
-  | accCancel name => exact ⟨[], tcons_accCancel s.n name, by simp [TS.step, TLbl.newId?]⟩
-  | accClose now name => exact ⟨[], tcons_accClose s.n now name hok, by simp [TS.step, TLbl.newId?]⟩
+    cases op <;> simp [HTS.step, h4_HLbl.newId?, AcceptOp.h]
+  | listen name qs => exact ⟨[], tcons_accListen s.n name qs, by simp [HTS.step, h4_HLbl.newId?]⟩
+  | accCancel name => exact ⟨[], tcons_accCancel s.n name, by simp [HTS.step, h4_HLbl.newId?]⟩
+  | accClose now name => exact ⟨[], tcons_accClose s.n now name hok, by simp [HTS.step, h4_HLbl.newId?]⟩
   | incoming now name p =>
-    refine ⟨[], ?_, by simp [TS.step, TLbl.newId?]⟩
-    simp only [TLbl.eff]
+    refine ⟨[], ?_, by simp [HTS.step, h4_HLbl.newId?]⟩
+    simp only [h4_HLbl.eff]
     split
     · exact TCons.refl _
     · split
       · exact tcons_accIncoming s.n now name p hok.1 hok.2
       · exact tcons_tcpIncoming tp s.n now name p
-  | dropped name p => exact ⟨[], tcons_tcpPacketDropped tp s.n name p, by simp [TS.step, TLbl.newId?]⟩
+  | dropped name p => exact ⟨[], tcons_tcpPacketDropped tp s.n name p, by simp [HTS.step, h4_HLbl.newId?]⟩
   | resendOne now name =>
-    refine ⟨[], ?_, by simp [TS.step, TLbl.newId?]⟩
-    simp only [TLbl.eff]
+    refine ⟨[], ?_, by simp [HTS.step, h4_HLbl.newId?]⟩
+    simp only [h4_HLbl.eff]
     split
     · rename_i r hr; exact tcons_tcpResendOne s.n now name r hr
     · exact TCons.refl _
-  | ackPost name wb acked => exact ⟨[], tcons_tcpAckPost tp s.n name wb acked, by simp [TS.step, TLbl.newId?]⟩
+  | ackPost name wb acked => exact ⟨[], tcons_tcpAckPost tp s.n name wb acked, by simp [HTS.step, h4_HLbl.newId?]⟩
   | refusedFired h =>
-    refine ⟨[h], ⟨id, fun _ z => by simp [TLbl.eff, effIds]⟩, ?_⟩
-    simp only [TS.step, TLbl.newId?, Option.toList_none, List.nil_append]
+    refine ⟨[h], ⟨id, fun _ z => by simp [h4_HLbl.eff, effIds]⟩, ?_⟩
+    simp only [HTS.step, h4_HLbl.newId?, Option.toList_none, List.nil_append]
     exact (List.perm_cons_erase hok).symm
 
-theorem TInv_step (tp : TParams) (s : HS) (l : TLbl) (hI : TInv s) (hok : TS.ok s l) : TInv (TS.step tp s l) := by
+theorem TInv_step (tp : TParams) (s : HdS) (l : h4_HLbl) (hI : h4_TInv s) (hok : HTS.ok s l) : h4_TInv (HTS.step tp s l) := by
   obtain ⟨new, hc, hp⟩ := tcp_label_conserve tp s l hok
   refine ⟨hc.wf hI.wf, ?_⟩
   have h1 := hI.perm
@@ -175,29 +175,29 @@ theorem TInv_step (tp : TParams) (s : HS) (l : TLbl) (hI : TInv s) (hok : TS.ok 
   have h2 := hc.cnt hI.wf z
   have h3 := List.perm_iff_count.mp h1 z
   have h4 := List.perm_iff_count.mp hp z
-  have h5 : (TS.step tp s l).ids = s.ids ++ effIds (l.eff tp s.n).2 := by
-    simp [TS.step, HS.ids, logOf_ids]
-  have h6 : (TS.step tp s l).started = s.started ++ l.newId?.toList := rfl
-  have h7 : (TS.step tp s l).n = (l.eff tp s.n).1 := rfl
+  have h5 : (HTS.step tp s l).ids = s.ids ++ effIds (l.eff tp s.n).2 := by
+    simp [HTS.step, HdS.ids, logOf_ids]
+  have h6 : (HTS.step tp s l).started = s.started ++ l.newId?.toList := rfl
+  have h7 : (HTS.step tp s l).n = (l.eff tp s.n).1 := rfl
   rw [h5, h6, h7]
   simp only [List.count_append] at h2 h3 h4 ⊢
   omega
 
-theorem TInv_run (tp : TParams) (ls : List TLbl) (s : HS) (hI : TInv s) (hok : TS.okRun tp s ls) :
-    TInv (TS.run tp s ls) := by
+theorem TInv_run (tp : TParams) (ls : List h4_HLbl) (s : HdS) (hI : h4_TInv s) (hok : HTS.okRun tp s ls) :
+    h4_TInv (HTS.run tp s ls) := by
   induction ls generalizing s with
   | nil => exact hI
   | cons l rest ih => exact ih _ (TInv_step tp s l hI hok.1) hok.2
 
-theorem TS_run_started (tp : TParams) (ls : List TLbl) (s : HS) :
-    (TS.run tp s ls).started = s.started ++ ls.filterMap TLbl.newId? := by
+theorem TS_run_started (tp : TParams) (ls : List h4_HLbl) (s : HdS) :
+    (HTS.run tp s ls).started = s.started ++ ls.filterMap h4_HLbl.newId? := by
   induction ls generalizing s with
-  | nil => simp [TS.run]
+  | nil => simp [HTS.run]
   | cons l rest ih =>
-    have := ih (TS.step tp s l)
-    unfold TS.run at this ⊢
+    have := ih (HTS.step tp s l)
+    unfold HTS.run at this ⊢
     rw [List.foldl_cons, this]
-    have h6 : (TS.step tp s l).started = s.started ++ l.newId?.toList := rfl
+    have h6 : (HTS.step tp s l).started = s.started ++ l.newId?.toList := rfl
     rw [h6]
     cases hl : l.newId? <;> simp [hl]
 
@@ -220,7 +220,7 @@ theorem accConnsOkb_sound {n : NetSt} {name : String} (h : accConnsOkb n name = 
   rw [List.all_eq_true] at h
   simpa using h c hc
 
-def TS.okb (s : HS) : TLbl → Bool
+def HTS.okb (s : HdS) : h4_HLbl → Bool
   | .newSock name _ _ => (s.n.tcp? name).isNone
   | .connect _ name _ _ =>
     (match s.n.tcp? name with | some s0 => !s0.isOpen || s0.connectH.isNone | none => false)
@@ -237,8 +237,8 @@ def TS.okb (s : HS) : TLbl → Bool
   | .refusedFired h => s.parked.contains h
   | _ => true
 
-theorem TS.okb_sound {s : HS} {l : TLbl} (h : TS.okb s l = true) : TS.ok s l := by
-  cases l <;> simp only [TS.okb, TS.ok] at h ⊢ <;> (try trivial) <;> (try exact h)
+theorem HTS.okb_sound {s : HdS} {l : h4_HLbl} (h : HTS.okb s l = true) : HTS.ok s l := by
+  cases l <;> simp only [HTS.okb, HTS.ok] at h ⊢ <;> (try trivial) <;> (try exact h)
   case newSock name node isAcc => simpa using h
   case connect now name target hd =>
     cases hs : s.n.tcp? name with
@@ -262,17 +262,17 @@ theorem TS.okb_sound {s : HS} {l : TLbl} (h : TS.okb s l = true) : TS.ok s l := 
     have := h.2; rw [hc] at this; simpa using this
   case refusedFired hd => simpa using h
 
-def TS.okRunb (tp : TParams) : HS → List TLbl → Bool
+def HTS.okRunb (tp : TParams) : HdS → List h4_HLbl → Bool
   | _, [] => true
-  | s, l :: rest => TS.okb s l && TS.okRunb tp (TS.step tp s l) rest
+  | s, l :: rest => HTS.okb s l && HTS.okRunb tp (HTS.step tp s l) rest
 
-theorem TS.okRunb_sound (tp : TParams) (ls : List TLbl) (s : HS) (h : TS.okRunb tp s ls = true) :
-    TS.okRun tp s ls := by
+theorem HTS.okRunb_sound (tp : TParams) (ls : List h4_HLbl) (s : HdS) (h : HTS.okRunb tp s ls = true) :
+    HTS.okRun tp s ls := by
   induction ls generalizing s with
   | nil => trivial
   | cons l rest ih =>
-    simp only [TS.okRunb, Bool.and_eq_true] at h
-    exact ⟨TS.okb_sound h.1, ih _ h.2⟩
+    simp only [HTS.okRunb, Bool.and_eq_true] at h
+    exact ⟨HTS.okb_sound h.1, ih _ h.2⟩
 
 def TWfb (n : NetSt) : Bool :=
   decide (n.tcps.map (·.1)).Nodup && n.tcps.all (fun e => e.2.recvH.isNone || e.2.waitRecvH.isNone)
@@ -289,7 +289,7 @@ theorem TWfb_sound {n : NetSt} (h : TWfb n = true) : TWf n := by
     every slot of the acceptor is empty, it is closed and detached, its queue is empty. -/
 theorem accClose_posts (n : NetSt) (now : Int) (name : String) (s : TcpSock) (a : AccState)
     (hs : n.tcp? name = some s) (ha : s.acc = some a) :
-    postsOf (n.accClose now name).2 = postsOf (tcpAbortAcceptEffs s) ++ postsOf (tcpCancelEffs s)
+    h4_postsOf (n.accClose now name).2 = h4_postsOf (tcpAbortAcceptEffs s) ++ h4_postsOf (tcpCancelEffs s)
     ∧ ∃ s', (n.accClose now name).1.tcp? name = some s'
         ∧ s'.acceptOp = none ∧ s'.recvH = none ∧ s'.waitRecvH = none ∧ s'.sendH = none ∧ s'.connectH = none
         ∧ s'.isOpen = false ∧ s'.fwd = none ∧ s'.acc.map (·.conns) = some []
